@@ -73,8 +73,14 @@ structure Proto where
   calcPosition : RtpPacket → GoM RtpPacket
   tryUnpackOne : List RtpPacket → GoM (Option Unpacked)
 
-/-- `int64(Timestamp / uint32(clockRate/1000))` -/
-def tsMs (rate : Nat) (ts : Nat) : GoM Nat := div? "Timestamp / uint32(clockRate/1000)" ts (rate / 1000 % 4294967296)
+/-- `uint32(x)` of a Go `int` -/
+def toU32 (x : Int) : Nat := (x % 4294967296).toNat
+
+/-- `rtpTimestamp2Ms(Timestamp, clockRate)` : `ticksPerMs := uint32(clockRate/1000)` (Go's `/` truncates towards zero,
+    the clock rate is any `int` an SDP can announce), a zero divisor is replaced by 1 -/
+def tsMs (rate : Int) (ts : Nat) : GoM Nat :=
+  let d := toU32 (rate.tdiv 1000)
+  .ok (ts / (if d = 0 then 1 else d))
 
 /-! ### AVC / HEVC -/
 
@@ -84,10 +90,12 @@ def fuPos (fh : UInt8) : Nat :=
 /-- `calcPositionIfNeededAvc` -/
 def calcPositionAvc (p : RtpPacket) : GoM RtpPacket := do
   let b ← p.body
+  if b.length < 1 then return p
   let b0 ← idx? "calcPositionIfNeededAvc b[0]" b 0
   let t := b0.toNat % 32
   if t ≤ 23 then return { p with pos := 1 }
   else if t = 28 then
+    if b.length < 2 then return p
     let fh ← idx? "calcPositionIfNeededAvc b[1]" b 1
     return { p with pos := fuPos fh }
   else if t = 24 then return { p with pos := 5 }
@@ -96,13 +104,17 @@ def calcPositionAvc (p : RtpPacket) : GoM RtpPacket := do
 /-- `calcPositionIfNeededHevc` -/
 def calcPositionHevc (p : RtpPacket) : GoM RtpPacket := do
   let b ← p.body
+  if b.length < 1 then return p
   let b0 ← idx? "calcPositionIfNeededHevc b[0]" b 0
   let t := b0.toNat / 2 % 64
   if t < 48 then return { p with pos := 1 }
   else if t = 49 then
+    if b.length < 3 then return p
     let fh ← idx? "calcPositionIfNeededHevc b[2]" b 2
     return { p with pos := fuPos fh }
-  else if t = 48 then return { p with pos := 6 }
+  else if t = 48 then
+    if b.length < 2 then return p
+    return { p with pos := 6 }
   else return p
 
 /-- the two loops over an aggregation packet (`2-byte size, NAL` repeated) : `none` = "invalid STAP-A packet" -/
@@ -134,7 +146,7 @@ def fuBodies (hdrLen : Nat) : List RtpPacket → GoM Bytes
     return d ++ r
 
 /-- `RtpUnpackerAvcHevc.TryUnpackOne` -/
-def tryUnpackOneAvcHevc (hevc : Bool) (rate : Nat) (items : List RtpPacket) : GoM (Option Unpacked) :=
+def tryUnpackOneAvcHevc (hevc : Bool) (rate : Int) (items : List RtpPacket) : GoM (Option Unpacked) :=
   match items with
   | [] => .ok none
   | first :: rest =>
@@ -174,7 +186,7 @@ def tryUnpackOneAvcHevc (hevc : Bool) (rate : Nat) (items : List RtpPacket) : Go
                       seq := last.hdr.seq, rest := rest', sizeDec := 1 + more.length }
     else .ok none
 
-def protoAvcHevc (hevc : Bool) (rate : Nat) : Proto :=
+def protoAvcHevc (hevc : Bool) (rate : Int) : Proto :=
   { calcPosition := if hevc then calcPositionHevc else calcPositionAvc,
     tryUnpackOne := tryUnpackOneAvcHevc hevc rate }
 
@@ -195,15 +207,17 @@ def parseAuLoop (b : Bytes) : Nat → Nat → Nat → GoM (List Au)
     let r ← parseAuLoop b n (pauh + 2) (pau + sz)
     return { size := sz, pos := pau } :: r
 
-/-- `parseAu` -/
+/-- `parseAu` : a packet shorter than its AU-header section carries no access unit (`nil`) -/
 def parseAu (b : Bytes) : GoM (List Au) := do
+  if b.length < 2 then return []
   let b0 ← idx? "parseAu b[0]" b 0
   let b1 ← idx? "parseAu b[1]" b 1
   let ahl := (rd16 b0 b1 + 7) / 8
+  if 2 + ahl > b.length then return []
   parseAuLoop b (ahl / 2) 2 (2 + ahl)
 
 /-- the fragment loop of `RtpUnpackerAac.TryUnpackOne` (`acc` = `as` joined, `cache` = `cacheSize`) -/
-def aacFragLoop (rate total ts0 : Nat) : Nat → Nat → Bytes → Nat → List RtpPacket → GoM (Option Unpacked)
+def aacFragLoop (rate : Int) (total ts0 : Nat) : Nat → Nat → Bytes → Nat → List RtpPacket → GoM (Option Unpacked)
   | _, _, _, _, [] => .ok none
   | seq, cache, acc, cnt, p :: rest =>
     if subSeq p.hdr.seq seq ≠ 1 then .ok none
@@ -225,17 +239,20 @@ def aacFragLoop (rate total ts0 : Nat) : Nat → Nat → Bytes → Nat → List 
       | _ => return none
 
 /-- the "more complete access units" loop -/
-def aacMulti (rate ts : Nat) (b : Bytes) : Nat → List Au → GoM (List AvPacket)
+def aacMulti (rate : Int) (ts : Nat) (b : Bytes) : Nat → List Au → GoM (List AvPacket)
   | _, [] => .ok []
   | i, a :: rest => do
     let t ← tsMs rate ts
-    let d ← div? "i*(1024*1000)/clockRate" (i * 1024000) rate
+    -- `if clockRate != 0 { Timestamp += int64(uint32(i*(1024*1000)/clockRate)) }`
+    let d := if rate = 0 then 0 else toU32 (((i * 1024000 : Nat) : Int).tdiv rate)
+    -- an access unit that exceeds the packet ends the loop (`break`)
+    if a.pos + a.size > b.length then return []
     let payload ← slice? "b[pos:pos+size]" b a.pos (a.pos + a.size)
     let r ← aacMulti rate ts b (i + 1) rest
-    return { ts := t + d % 4294967296, payload := payload } :: r
+    return { ts := t + d, payload := payload } :: r
 
 /-- `RtpUnpackerAac.TryUnpackOne` -/
-def tryUnpackOneAac (rate : Nat) (items : List RtpPacket) : GoM (Option Unpacked) :=
+def tryUnpackOneAac (rate : Int) (items : List RtpPacket) : GoM (Option Unpacked) :=
   match items with
   | [] => .ok none
   | p :: rest => do
@@ -254,13 +271,13 @@ def tryUnpackOneAac (rate : Nat) (items : List RtpPacket) : GoM (Option Unpacked
       let outs ← aacMulti rate p.hdr.timestamp b 0 aus
       return some { outs := outs, seq := p.hdr.seq, rest := rest, sizeDec := 1 }
 
-def protoAac (rate : Nat) : Proto :=
+def protoAac (rate : Int) : Proto :=
   { calcPosition := fun p => .ok p, tryUnpackOne := tryUnpackOneAac rate }
 
 /-! ### raw (G.711 A/U, Opus) -/
 
 /-- `RtpUnpackerRaw.TryUnpackOne` -/
-def tryUnpackOneRaw (rate : Nat) (items : List RtpPacket) : GoM (Option Unpacked) :=
+def tryUnpackOneRaw (rate : Int) (items : List RtpPacket) : GoM (Option Unpacked) :=
   match items with
   | [] => .ok none
   | p :: rest => do
@@ -268,10 +285,10 @@ def tryUnpackOneRaw (rate : Nat) (items : List RtpPacket) : GoM (Option Unpacked
     let ts ← tsMs rate p.hdr.timestamp
     return some { outs := [{ ts := ts, payload := b }], seq := p.hdr.seq, rest := rest, sizeDec := 1 }
 
-def protoRaw (rate : Nat) : Proto :=
+def protoRaw (rate : Int) : Proto :=
   { calcPosition := fun p => .ok p, tryUnpackOne := tryUnpackOneRaw rate }
 
-def protoOf : Kind → Nat → Proto
+def protoOf : Kind → Int → Proto
   | .avc, r => protoAvcHevc false r
   | .hevc, r => protoAvcHevc true r
   | .aac, r => protoAac r
